@@ -516,6 +516,30 @@ func (e *simEnv) judge(res drive.Result, tag string) (flow *refmatch.Flow, js []
 			}
 		}
 	}
+	if v.Serial && e.spec.Timeout > 0 {
+		// the serial engine's wait for probe t ends when it reads a frame it accepts or when t's listening window (the
+		// configured timeout) is over - not earlier. So when nothing the reference does not reject was read between two
+		// consecutive sends, they are at least one timeout apart. (A shortened wait credits a late SYN-ACK to a newer probe
+		// and measures its RTT against that probe's send instant.)
+		for k := 0; k+1 < len(f.Probes); k++ {
+			a, b := f.Probes[k], f.Probes[k+1]
+			answered := false
+			for i := range js {
+				if js[i].out.Kind != refmatch.Reject && !js[i].d.ReadAt.Before(a.SentAt) && !js[i].d.ReadAt.After(b.SentAt) {
+					answered = true
+					break
+				}
+			}
+			if answered {
+				continue
+			}
+			c.Count("serial_windows_checked", 1)
+			if gap := b.SentAt.Sub(a.SentAt); gap < e.spec.Timeout {
+				c.Violate("C02", "listening-window-cut-short/"+v.Name, fmt.Sprintf("%s: probe %d was sent %v after probe %d although nothing had answered; the listening window of a probe is %v", tag, b.TTL, gap, a.TTL, e.spec.Timeout), detail())
+				break
+			}
+		}
+	}
 	// per-hop forms
 	for i, h := range hops {
 		t := first + i
